@@ -1,0 +1,16 @@
+//go:build verif
+
+package retrypolicy
+
+import (
+	"time"
+
+	"github.com/failsafe-go/failsafe-go"
+)
+
+// VerifDelayProbe returns the delay computation of a fresh retry executor for the policy, callable repeatedly as an
+// execution would call it once per scheduled retry. Verification hook, only built with -tags verif.
+func VerifDelayProbe[R any](p RetryPolicy[R]) func(failsafe.ExecutionAttempt[R]) time.Duration {
+	e := p.ToExecutor(*new(R)).(*executor[R])
+	return e.getDelay
+}
